@@ -1,4 +1,4 @@
-import Pyrtma.Proofs.ManagerSimConn
+import Pyrtma.Proofs.ManagerSimAdj
 import Pyrtma.Proofs.ManagerSimLog
 /-!
 # Refinement of the history-based Spec by the manager model M1 — part 6: rounds and histories
@@ -247,11 +247,14 @@ theorem go_dead (cfg : Cfg) : ∀ (reads : List Read) (a : A) (fuel : Nat), (∀
 theorem readAll_cons (cfg : Cfg) (rd : Read) (rest : List Read) (s : State) :
     readAll cfg (rd :: rest) s = readAll cfg rest (readOne cfg s rd) := rfl
 
-theorem quietTo_refl {cfg : Cfg} {s : State} (t : Top cfg s) (j : J s) : QuietTo cfg s s :=
-  ⟨Nest.refl s, t, j, Quiet.refl _ s, fun _ => Quiet.refl _ s, infoTo_refl _ _ s⟩
+theorem quietTo_refl {cfg : Cfg} {s : State} (t : Top cfg s) (j : J s) (tt : T s) : QuietTo cfg s s :=
+  ⟨Nest.refl s, t, j, Quiet.refl _ s, fun _ => Quiet.refl _ s, infoTo_refl _ _ s, Dep.refl _ _ _ s, tt⟩
+
+theorem ordOK_of_perm {cfg : Cfg} (hperm : OrdPerm cfg) : OrdOK cfg :=
+  fun l hl => ⟨(hperm l).nodup_iff.mpr hl, fun x hx => (hperm l).mem_iff.mp hx⟩
 
 section loop
-variable {cfg : Cfg} (ok : CfgOK cfg) (hfuel : cfg.fuel = 0) (hperm : OrdPerm cfg)
+variable {cfg : Cfg} (ok : CfgOK cfg) (hfuel : cfg.fuel = 0) (hperm : OrdPerm cfg) (hmt : cfg.mtClosed ≠ cfg.allTypes)
 include ok hfuel
 
 /-- the log only grows while frames are read -/
@@ -266,7 +269,7 @@ theorem readAll_out : ∀ (reads : List Read) (s : State), Top cfg s → ∃ E, 
       obtain ⟨E1, h1, _⟩ := readOne_evt cfg s rd t.good.ok m hm
       exact ⟨Ev.rd rd.uid :: E1 ++ E2, by rw [h2, h1]; simp⟩
 
-include hperm
+include hperm hmt
 
 /-- **The reading loop.**  Either no frame of `reads` is handled (all their connections are gone), or the Spec's loop over
 the same frames and the segments of the model's events ends in a state that simulates the model's, with no violation of
@@ -323,14 +326,16 @@ theorem readAll_go : ∀ (reads : List Read) (a : A) (s sQ : State) (E : List Ev
         exact List.append_cancel_left this
       -- the C14 origin check only appends error entries
       have invN : ∀ evs', Inv cfg (Spec.checkNoticeOrigin cfg a (some rd) evs') s := fun evs' =>
-        ⟨sim_coreExt inv.sim (Spec.checkNoticeOrigin_ext cfg a (some rd) evs').core, inv.top, inv.j⟩
+        ⟨sim_coreExt inv.sim (Spec.checkNoticeOrigin_ext cfg a (some rd) evs').core, inv.top, inv.j, inv.t⟩
       have errN : ∀ evs' p, p ∈ proven → Spec.NoErr p a → Spec.NoErr p (Spec.checkNoticeOrigin cfg a (some rd) evs') :=
         fun evs' p hp hn => (Spec.checkNoticeOrigin_ext cfg a (some rd) evs').noErr (fun h => proven_not hp (by
           simp only [List.mem_singleton] at h; subst h; simp [others])) hn
       -- the abstract state after this frame alone
-      have hx := segment_ok ok hfuel hperm (invN E1) rd hu0 m hm (readOne cfg s rd) (quietTo_refl t1 j1) E1 hE1
+      have tt1 : T (readOne cfg s rd) :=
+        T_of_A inv.t (ta_readOne ok hmt (ordOK_of_perm hperm) hfuel inv.top rd).2
+      have hx := segment_ok ok hfuel hperm (invN E1) rd hu0 m hm (readOne cfg s rd) (quietTo_refl t1 j1 tt1) E1 hE1
       rcases readAll_go rest (Spec.segment cfg (Spec.checkNoticeOrigin cfg a (some rd) E1) rd E1) (readOne cfg s rd) sQ
-          (E2a ++ E2b) fuel ⟨hx.1.sim, hx.1.top, hx.1.j⟩ hwf' hlen' q hE2 with ⟨h1, h2, h2'⟩ | ⟨h1, h2, h3, h4⟩
+          (E2a ++ E2b) fuel ⟨hx.1.sim, hx.1.top, hx.1.j, hx.1.t⟩ hwf' hlen' q hE2 with ⟨h1, h2, h2'⟩ | ⟨h1, h2, h3, h4⟩
       · -- the last frame handled in this round: the continuation's events belong to its segment
         rw [h2] at q
         have hsplit : Spec.splitRd E = ([], [(rd.uid, E1 ++ (E2a ++ E2b))]) := by
@@ -569,10 +574,30 @@ def roundRest (cfg : Cfg) (a3 : A) (reads : List Read) (pre : List Ev) (segs : L
   roundEnd cfg (Spec.roundBody.go cfg (goStart cfg a3 pre) reads segs (reads.length + segs.length + 1)) pre segs
 
 theorem goStart_ext (cfg : Cfg) (a3 : A) (pre : List Ev) :
-    ∃ X, Spec.CoreExt others a3 X ∧ goStart cfg a3 pre = Spec.applyDepartures X pre :=
-  ⟨_, ((ext_others (Spec.errExt_chk ["C07"] a3 _ "C07" _ (by simp))).trans
-    (ext_others (Spec.checkNoticeOrigin_ext cfg _ none pre))).trans
-    (ext_others (Spec.checkDepartures_ext cfg _ none pre)), rfl⟩
+    ∃ X, Spec.CoreExt ("C07" :: others) a3 X ∧ goStart cfg a3 pre = Spec.applyDepartures X pre :=
+  ⟨_, (((Spec.errExt_chk ["C07"] a3 _ "C07" _ (by simp)).mono (by simp)).core.trans
+    ((Spec.checkNoticeOrigin_ext cfg _ none pre).mono (by simp [others])).core).trans
+    ((Spec.checkDepartures_ext cfg _ none pre).mono (by simp [others])).core, rfl⟩
+
+/-- the C07 clauses of the stretch before the first frame read, from the simulation at its end and its departure facts -/
+theorem goStart_c07 {cfg : Cfg} {a3 : A} {sE : State} (pre0 pre : List Ev) (hs : Sim cfg (Spec.applyDepartures a3 pre) sE)
+    (ao : AllOpen sE) (j : J sE) (t : T sE) (he : sE.out = pre0 ++ pre) (d : DepE cfg none none sE pre)
+    (hn : Spec.NoErr "C07" a3) : Spec.NoErr "C07" (goStart cfg a3 pre) := by
+  unfold goStart
+  have h1 : ((Spec.closes pre).isEmpty || !(Spec.wfails pre).isEmpty) = true := by
+    cases hc : Spec.closes pre with
+    | nil => rfl
+    | cons v rest =>
+      have hv : Ev.close v ∈ pre := (mem_closes pre v).mp (by rw [hc]; simp)
+      have hw : Ev.wfail v ∈ pre := (d.just v hv).resolve_left (by simp)
+      have : v ∈ Spec.wfails pre := (Spec.mem_wfails pre v).mpr hw
+      cases hwf : Spec.wfails pre with
+      | nil => rw [hwf] at this; cases this
+      | cons _ _ => rfl
+  rw [Spec.chk_of _ _ _ _ h1]
+  have hN := Spec.checkNoticeOrigin_ext cfg a3 none pre
+  have hD := dep_ext_fin pre0 pre hs ao j t he hN.core none d (fun u hu => by cases hu)
+  exact noErr_applyDepartures pre (hD.noErr (by simp) (hN.noErr (by simp) hn))
 
 theorem roundEnd_ext (cfg : Cfg) (a : A) (pre : List Ev) (segs : List (Nat × List Ev)) :
     Spec.CoreExt others a (roundEnd cfg a pre segs) := by
